@@ -416,6 +416,8 @@ def run(ctx, progs):
         c13.r3_reclaim_boundary(ctx, P, D, R="C01.R10")
         c18.r4_conversions(ctx, P, R="C01.R11")
         _c10.r1d_aligner_direction(ctx, P, D, R="C01.R12")
+        from . import c17
+        c17.r3_twins(ctx, P, R="C01.R13")
     ctx.config = None
 
 
